@@ -3594,6 +3594,55 @@ theorem fruitless_visit {H : Hashes} (hH : HashOk H) {m : SegMap V} (inv : SegIn
   rw [hsame] at this
   exact this hk'
 
+section ansSection
+variable [DecidableEq V]
+
+/-! ### the answer caches (PositiveCache / NegativeCache) -/
+
+/-- `Get` of an answer cache: a live entry is returned and nothing changes; an
+expired one is removed (only that key) and reported as a miss. -/
+theorem ansGet_spec {H : Hashes} (hH : HashOk H) (expired : V → Bool) {c : Cache V} (inv : SegInv H c.data) (k : Nat) :
+    SegInv H (c.ansGet H expired k).1.data ∧
+    (c.ansGet H expired k).2 = (match sabs H c.data k with
+      | some e => if expired e then none else some e
+      | none => none) ∧
+    (∀ k', sabs H (c.ansGet H expired k).1.data k' =
+      if k' = k ∧ (match sabs H c.data k with | some e => expired e | none => false) = true then none
+      else sabs H c.data k') := by
+  unfold Cache.ansGet Cache.get
+  rw [seg_get_eq hH inv k]
+  cases hs : sabs H c.data k with
+  | none => simp only; exact ⟨inv, trivial, fun k' => by simp⟩
+  | some e =>
+    simp only
+    by_cases hx : expired e = true
+    · rw [if_pos hx]
+      obtain ⟨d1, d2, d3, _, _⟩ := cad_spec hH inv k e
+      have ht : (c.compareAndDelete H k e).2 = true := d2.mpr hs
+      refine ⟨d1, by simp [hx], ?_⟩
+      intro k'
+      rw [(d3 ht).1 k']
+      by_cases hk : k' = k
+      · simp [hk, hx]
+      · simp [hk]
+    · rw [if_neg hx]
+      refine ⟨inv, by simp [hx], ?_⟩
+      intro k'
+      have : expired e = false := by simpa using hx
+      simp [this]
+
+/-- **A key yields the value most recently stored under it**, at the answer-cache
+level: after `Set(k, e)` a `Get(k)` returns `e` if it is live and a miss if it
+is already expired — never an older value. -/
+theorem ansSet_then_get {H : Hashes} (hH : HashOk H) (expired : V → Bool) {c : Cache V} (inv : SegInv H c.data)
+    (k : Nat) (e : V) :
+    ((c.ansSet H k e).ansGet H expired k).2 = (if expired e then none else some e) := by
+  obtain ⟨i1, s1, _, _⟩ := setWithCap_spec hH inv k e (c.maxSize : Int)
+  have i1' : SegInv H (c.ansSet H k e).data := i1
+  have s1' : sabs H (c.ansSet H k e).data k = some e := s1
+  rw [(ansGet_spec hH expired i1' k).2.1, s1']
+end ansSection
+
 /-! ### the real mixers are admissible instances -/
 
 theorem realIdx_ok : IdxOk realIdx := fun n _ hn => Nat.mod_lt _ hn
